@@ -287,49 +287,74 @@ def _fill_rows(run, f):
             t = S.fill_test(st.value.func.value)
             if t and t[0] == "eq" and norm(t[1]) == uniq:
                 mask = st.targets[0].id
-    probs = []
+    probs = []      # definite counter-facts
+    unknown = []    # constructs that exist but are written in an idiom this rule does not read
     if mask is None:
-        probs.append("no mask marking the unique pairs that contain INT_FILL_VALUE in either column")
+        any_fill_cmp = any(isinstance(n, ast.Compare) and any(S.is_fill(x) for x in [n.left] + n.comparators) and uniq in {m.id for m in ast.walk(n) if isinstance(m, ast.Name)} for n in ast.walk(fn))
+        (unknown if any_fill_cmp else probs).append("no mask marking the unique pairs that contain INT_FILL_VALUE in either column")
     else:
+        def negates_mask(sel_nodes):
+            return any(isinstance(n, ast.Call) and (dotted(n.func) or [""])[-1] == "logical_not" and norm(n.args[0]) == mask for e in sel_nodes for n in ast.walk(e)) or \
+                any(isinstance(n, ast.UnaryOp) and isinstance(n.op, ast.Invert) and norm(n.operand) == mask for e in sel_nodes for n in ast.walk(e))
         # uniq = uniq[~mask]
         keep = False
-        for st in S.assigns(fn, uniq):
-            v = st.value
-            if isinstance(v, ast.Subscript) and norm(v.value) == uniq:
-                sel_nodes, names = defs.closure(v.slice)
-                neg = any(isinstance(n, ast.Call) and (dotted(n.func) or [""])[-1] == "logical_not" and norm(n.args[0]) == mask for e in sel_nodes for n in ast.walk(e)) or \
-                    any(isinstance(n, ast.UnaryOp) and isinstance(n.op, ast.Invert) and norm(n.operand) == mask for e in sel_nodes for n in ast.walk(e))
-                if neg:
-                    keep = True
+        restr = [st for st in S.assigns(fn, uniq) if isinstance(st.value, ast.Subscript) and norm(st.value.value) == uniq]
+        for st in restr:
+            sel_nodes, names = defs.closure(st.value.slice)
+            if negates_mask(sel_nodes):
+                keep = True
         if not keep:
-            probs.append("the unique table is not restricted to the pairs without a fill value: padding slots appear as edges")
-        # inverse[isin(inverse, where(mask))] = FILL
+            (unknown if restr else probs).append("the unique table is not restricted to the pairs without a fill value: padding slots appear as edges")
+        # positions of the removed pairs:  np.where(mask)[0] | np.nonzero(mask)[0] | mask.nonzero()[0] | np.flatnonzero(mask)
         idx_removed = None
         for st in iter_stmts(fn.body):
-            if isinstance(st, ast.Assign) and isinstance(st.targets[0], ast.Name) and isinstance(st.value, ast.Subscript) and isinstance(st.value.value, ast.Call) and (dotted(st.value.value.func) or [""])[-1] == "where" and norm(st.value.value.args[0]) == mask:
+            if not (isinstance(st, ast.Assign) and isinstance(st.targets[0], ast.Name)):
+                continue
+            v = st.value
+            if isinstance(v, ast.Subscript) and isinstance(v.slice, ast.Constant) and v.slice.value == 0 and isinstance(v.value, ast.Call):
+                cl = v.value
+                nm = (dotted(cl.func) or [""])[-1]
+                if nm in ("where", "nonzero") and len(cl.args) == 1 and norm(cl.args[0]) == mask:
+                    idx_removed = st.targets[0].id
+                if nm == "nonzero" and not cl.args and isinstance(cl.func, ast.Attribute) and norm(cl.func.value) == mask:
+                    idx_removed = st.targets[0].id
+            if isinstance(v, ast.Call) and (dotted(v.func) or [""])[-1] == "flatnonzero" and len(v.args) == 1 and norm(v.args[0]) == mask:
                 idx_removed = st.targets[0].id
+        # inverse[isin(inverse, removed)] = FILL   |   inverse[mask[inverse]] = FILL
         set_fill = False
-        for st in S.stores_into(fn, inv):
-            if S.is_fill(st.value):
-                sel_nodes, names = defs.closure(st.targets[0].slice)
-                if idx_removed and any(isinstance(n, ast.Call) and (dotted(n.func) or [""])[-1] == "isin" and [norm(a) for a in n.args[:2]] == [inv, idx_removed] for e in sel_nodes for n in ast.walk(e)):
-                    set_fill = True
+        fill_stores = [st for st in S.stores_into(fn, inv) if S.is_fill(st.value)]
+        for st in fill_stores:
+            sel_nodes, names = defs.closure(st.targets[0].slice)
+            if idx_removed and any(isinstance(n, ast.Call) and (dotted(n.func) or [""])[-1] == "isin" and [norm(a) for a in n.args[:2]] == [inv, idx_removed] for e in sel_nodes for n in ast.walk(e)):
+                set_fill = True
+            if any(isinstance(n, ast.Subscript) and norm(n.value) == mask and norm(n.slice) == inv for e in sel_nodes for n in ast.walk(e)):
+                set_fill = True
         if not set_fill:
-            probs.append("the inverse entries that point at removed (fill) pairs are not replaced by INT_FILL_VALUE")
-        # renumbering: inverse[i] -= searchsorted(idx_removed, inverse, side='right')[i]  for non-fill
+            (unknown if fill_stores else probs).append("the inverse entries that point at removed (fill) pairs are not replaced by INT_FILL_VALUE")
+        # renumbering: inverse[sel] -= searchsorted(removed, inverse, side='right')[sel]  for the non-fill entries
         ren = False
-        for st in iter_stmts(fn.body):
-            if isinstance(st, ast.AugAssign) and isinstance(st.op, ast.Sub) and isinstance(st.target, ast.Subscript) and norm(st.target.value) == inv:
-                nodes, _ = defs.closure(st.value)
-                ss = [n for e in nodes for n in ast.walk(e) if isinstance(n, ast.Call) and (dotted(n.func) or [""])[-1] == "searchsorted"]
-                for s in ss:
-                    side = next((k.value for k in s.keywords if k.arg == "side"), None)
-                    if idx_removed and [norm(a) for a in s.args[:2]] == [idx_removed, inv] and str_const(side) == "right":
+        updates = [st for st in iter_stmts(fn.body) if isinstance(st, ast.AugAssign) and ((isinstance(st.target, ast.Subscript) and norm(st.target.value) == inv) or norm(st.target) == inv)]
+        updates += [st for st in S.assigns(fn, inv) if isinstance(st.value, (ast.BinOp, ast.Call)) and inv in {m.id for m in ast.walk(st.value) if isinstance(m, ast.Name)}
+                    and not (isinstance(st.value, ast.Call) and (dotted(st.value.func) or [""])[-1] == "unique")]
+        for st in updates:
+            if not (isinstance(st, ast.AugAssign) and isinstance(st.op, ast.Sub) and isinstance(st.target, ast.Subscript)):
+                continue
+            nodes, _ = defs.closure(st.value)
+            ss = [n for e in nodes for n in ast.walk(e) if isinstance(n, ast.Call) and (dotted(n.func) or [""])[-1] == "searchsorted"]
+            for s_ in ss:
+                side = next((k.value for k in s_.keywords if k.arg == "side"), None)
+                if idx_removed and [norm(a) for a in s_.args[:2]] == [idx_removed, inv]:
+                    if str_const(side) == "right":
                         ren = True
-        if not ren:
-            probs.append("remaining inverse entries are not shifted down by the number of removed pairs that precede them (searchsorted(removed, inverse, side='right'))")
+                    else:
+                        side_txt = norm(side) if side is not None else "left (the default)"
+                        probs.append(f"renumbering uses searchsorted(..., side={side_txt}): an entry equal to a removed position is not counted")
+        if not ren and not any("renumbering uses" in p_ for p_ in probs):
+            (unknown if updates else probs).append("remaining inverse entries are not shifted down by the number of removed pairs that precede them (searchsorted(removed, inverse, side='right'))")
     if probs:
         run.violation("IDX/fill-pairs", c, where(f), "; ".join(probs))
+    elif unknown:
+        run.incomplete("IDX/fill-pairs", c, where(f), "idiom not recognised: " + "; ".join(unknown))
     else:
         run.holds("IDX/fill-pairs", c, where(f), "pairs with a fill value removed; their inverse entries -> INT_FILL_VALUE; the rest renumbered by the count of removed pairs before them")
     rets = [r for r in ast.walk(fn) if isinstance(r, ast.Return)]
